@@ -252,4 +252,3 @@ package radius
 //@ func (pm *PolicyManager) GetPolicy
 //@   trusted reads the policy table under its own lock
 //@   modifies nothing
-
